@@ -247,6 +247,3 @@ modulo_counter.isinstance_hook = lib.std_isinstance
 modulo_counter.assumptions = ["real % is modelled by an integer floor quotient FDIV with 0 <= t - M*FDIV(t,M) < M (M > 0); negative moduli are not covered by the proof (bounded stand-in only)",
                               "a stream-valued modulo is constant valued"]
 
-
-from pyvc.bounded import bounded_check
-rint.extra_checks = [bounded_check("bounded.c19", "generators-symrun", ["C19"])]
